@@ -170,6 +170,7 @@ type recCall struct {
 	at      time.Duration
 	pending uint64 // status id of the object passed
 	kind    reconciler.StatusKind
+	stale   bool // the user had already changed / removed / re-created the object when this attempt ran
 }
 
 type recExec struct {
@@ -198,8 +199,43 @@ type recExec struct {
 	attempts      map[uint64]int
 	k4            map[uint64]bool
 	delRev        map[uint64]uint64 // revision of the user's deletion of an object
+	lwSamples     []lwSample        // low-watermark as reported while a round is in progress
 	inUpdate      uint64
 	inUpdateRetry bool
+}
+
+func tailCalls(cs []recCall, n int) string {
+	if len(cs) > n {
+		cs = cs[len(cs)-n:]
+	}
+	var p []string
+	for _, c := range cs {
+		p = append(p, fmt.Sprintf("%s%d:%d:%v@%v", c.op, c.id, c.data, c.ok, c.at))
+	}
+	return strings.Join(p, " ")
+}
+
+type lwSample struct {
+	ncalls int // calls recorded before the sample
+	at     time.Duration
+	lw     uint64
+}
+
+// sampleLW: what WaitUntilReconciled reports right now (called from inside the target's
+// operations, i.e. between the reconciler's rounds' progress updates)
+func (e *recExec) sampleLW() {
+	if e.rec == nil {
+		return
+	}
+	e.mu.Lock()
+	n := len(e.calls)
+	e.mu.Unlock()
+	ctx, cancel := context.WithCancel(context.Background())
+	_, lw, _ := e.rec.WaitUntilReconciled(ctx, 0)
+	cancel()
+	e.mu.Lock()
+	e.lwSamples = append(e.lwSamples, lwSample{n, e.since(), lw})
+	e.mu.Unlock()
 }
 
 type recRef struct {
@@ -224,12 +260,14 @@ func (e *recExec) since() time.Duration { return time.Since(e.start) }
 // --- Operations / BatchOperations (the simulated target) ---
 
 func (e *recExec) doUpdate(rev statedb.Revision, obj *recObj) error {
+	e.sampleLW()
 	e.mu.Lock()
 	fail := e.failing[obj.ID]
 	inj := e.injects[obj.ID]
 	delete(e.injects, obj.ID)
 	st := obj.GetStatus()
-	c := recCall{op: "U", id: obj.ID, data: obj.Data, ok: !fail, at: e.since(), pending: st.ID, kind: st.Kind}
+	ref, live := e.ref[obj.ID]
+	c := recCall{op: "U", id: obj.ID, data: obj.Data, ok: !fail, at: e.since(), pending: st.ID, kind: st.Kind, stale: !live || ref.data != obj.Data}
 	e.calls = append(e.calls, c)
 	if !fail {
 		e.target[obj.ID] = recTarget{true, obj.Data}
@@ -256,7 +294,8 @@ func (e *recExec) doDelete(rev statedb.Revision, obj *recObj) error {
 	e.mu.Lock()
 	defer e.mu.Unlock()
 	fail := e.failing[obj.ID]
-	e.calls = append(e.calls, recCall{op: "D", id: obj.ID, data: obj.Data, ok: !fail, at: e.since()})
+	_, live := e.ref[obj.ID]
+	e.calls = append(e.calls, recCall{op: "D", id: obj.ID, data: obj.Data, ok: !fail, at: e.since(), stale: live})
 	if fail {
 		return errors.New("fail")
 	}
@@ -514,6 +553,36 @@ func (e *recExec) settleOracle(o *Out) {
 			}
 		}
 	}
+	// C16 low-watermark while rounds are in progress: a failed operation of an EARLIER instant that
+	// has neither succeeded nor been superseded since awaits retry, so the watermark is not zero
+	if len(e.k4) == 0 {
+		for _, sm := range e.lwSamples {
+			if sm.lw != 0 {
+				continue
+			}
+			// per object: the latest call decides (a later attempt of either kind supersedes an
+			// earlier failure; a change recorded BEFORE a stale retry ran does not keep it alive)
+			awaiting := map[string]recCall{}
+			for _, c := range e.calls[:sm.ncalls] {
+				k := fmt.Sprintf("object %d", c.id)
+				switch {
+				case c.op == "change" || c.ok:
+					delete(awaiting, k)
+				case c.at < sm.at && !c.stale:
+					awaiting[k] = c
+				default:
+					delete(awaiting, k) // failed in the round that is still in progress
+				}
+			}
+
+			for k, c := range awaiting {
+				o.Fail("C16", "low-watermark-zero-with-failed-object", map[string]string{"sampled": "during-a-round"},
+					fmt.Sprintf("WaitUntilReconciled reported low-watermark 0 at %v although %s failed at %v and has not succeeded or changed since; calls before the sample: %s", sm.at, k, c.at, tailCalls(e.calls[:sm.ncalls], 10)))
+				break
+			}
+		}
+	}
+	e.lwSamples = nil
 	// C16 pacing: consecutive failed attempts of one object with no change or success in between
 	streak := map[string][]time.Duration{}
 	for _, c := range e.calls {
